@@ -23,6 +23,8 @@ void splinetable<Alloc>::fit(const ::ndsparse& data,
 	              "DoubleContCont must be a container of DoubleCont values");
 	
 	//Sanity checking
+	if(ndim!=0)
+		throw std::runtime_error("splinetable already contains data, cannot fit");
 	if(data.rows!=weights.size())
 		throw std::logic_error("Number of weights ("
 		                       +std::to_string(weights.size())
